@@ -16,6 +16,7 @@
 -/
 import SSEPyVerif.Proofs.Schemes.ChainCfg
 import SSEPyVerif.Proofs.Schemes.SSE2
+import SSEPyVerif.Proofs.Schemes.PiPtr
 namespace SSEPy.C01
 open SSEPy.Sch SSEPy.Sch.Chain
 
@@ -48,6 +49,22 @@ theorem PiPack.search_stored (raw : RawCfg) (cfg : ChainCfg) (hcfg : PiPack.cfgB
   have := hnc L hL
   exact search_present cfg lv (PiPack.dec_enc raw cfg hcfg lv hl) K db t t' L hL this.labels_distinct w ids hm
     (PiPack.roundTrip raw cfg hcfg ids hv) (this.end_fresh w ids hm)
+
+/-- PiPtr (schemes/CJJ14/PiPtr): identifier blocks in the array at the recorded random positions, pointer blocks in a counter
+    chain.  Hypotheses: the recorded `random.sample` is duplicate-free and positive (it is a sample of `range(1, |A|)`), and
+    the run's labels do not collide. -/
+theorem PiPtr.search_stored (raw : RawCfg) (cfg : PiPtrCfg) (hcfg : PiPtr.cfgBuild raw = .ok cfg) (lv : Leaves)
+    (hl : LeafLaws lv) (K : Bytes) (db : DB) (t t' : Tape) (edb : PiPtrEDB)
+    (hs : PiPtr.setup cfg lv K db t = .ok (edb, t'))
+    (hsample : ∀ avail t0, takeNats t = .ok (avail, t0) → avail.Nodup ∧ ∀ p ∈ avail, 0 < p)
+    (w : Bytes) (ids : List Bytes) (hm : (w, ids) ∈ db) (hne : ids ≠ []) (hv : C17.ValidIds ids cfg.idSize.toNat)
+    (hnc : ∀ L A avail t0, takeNats t = .ok (avail, t0) →
+      PiPtr.encDb cfg lv K (bytesFor (PiPtr.arrayLen cfg db)) db avail (List.replicate (PiPtr.arrayLen cfg db) none) t0 = .ok (L, A, t') →
+      PiPtr.NoColl cfg lv K L w ids) :
+    ∃ tk, PiPtr.token cfg lv K w = .ok tk ∧ PiPtr.search cfg lv edb tk = .ok ids := by
+  obtain ⟨hB, hb, hsz, hplain⟩ := PiPtr.cfgBuild_ok cfg raw hcfg
+  exact PiPtr.search_present cfg lv (fun key iv msg c hiv he => ske_dec_enc lv hl cfg.ske hplain key iv msg c hiv he)
+    hB hb hsz K db t t' edb hs hsample w ids hm hne hv hnc
 
 /-- SSE-2 (schemes/CGKO06/SSE2): the hypotheses are about this run's PRP values — the addresses of the stored postings
     are pairwise distinct and the address one past a list's end is not a stored address (both follow from the PRP being a
